@@ -86,6 +86,9 @@ def run(facts, chk, tier, only=None):
     from . import skiter
     chk.guard('C12.func', 'C12.func:iterator-quality', lambda: skiter.check_reads(facts, chk, 'C12.func', tier))
     chk.guard('C12.func', 'C12.func:dictionary-reads', lambda: skiter.check_dict_reads(facts, chk, 'C12.func', tier))
+    # the same through ska::main(): --min-count / --min-qual / --qual-filter reach the dictionary in both width arms of `ska build`
+    from . import cli_e2e
+    chk.guard('C12.cli', 'C12.cli:run0', lambda: cli_e2e.check_build_reads(facts, chk, 'C12.cli', tier))
     # ---------------------------------------------------------------- qualcmp
     def qualcmp():
         I = Interp(facts, {'IntT': 'u64'})
